@@ -66,9 +66,21 @@ func (s *Server) Write(ctx context.Context, req *openfgav1.WriteRequest) (*openf
 	// apple to apple.
 	writeDurationHistogram.WithLabelValues(
 		strconv.FormatBool(s.IsAccessControlEnabled() && !authclaims.SkipAuthzCheckFromContext(ctx)),
-		req.GetWrites().GetOnDuplicate(),
-		req.GetDeletes().GetOnMissing(),
+		writeOptionLabel(req.GetWrites().GetOnDuplicate()),
+		writeOptionLabel(req.GetDeletes().GetOnMissing()),
 	).Observe(float64(time.Since(start).Milliseconds()))
 
 	return resp, err
+}
+
+// writeOptionLabel maps the on_duplicate / on_missing request option to a metric label value.
+// The option is an arbitrary client supplied string (it is only validated by the write command),
+// so anything but the accepted values is reported as "invalid" to keep the label set bounded.
+func writeOptionLabel(option string) string {
+	switch option {
+	case "", "error", "ignore":
+		return option
+	default:
+		return "invalid"
+	}
 }
